@@ -11,7 +11,6 @@ EXTENDS Naturals, Integers, Sequences, FiniteSets, TLC
 -----------------------------------------------------------------------------
 (* small helpers *)
 Rev(s) == [i \in 1..Len(s) |-> s[Len(s) + 1 - i]]
-Max2(a, b) == IF a > b THEN a ELSE b
 
 RECURSIVE Pow(_, _)
 Pow(b, k) == IF k = 0 THEN 1 ELSE b * Pow(b, k - 1)
@@ -294,8 +293,7 @@ RawOf(T, nbits, bytes) ==       \* unsigned raw value as the list sees it
        IF "BCD" \in T.fl /\ "HCD" \notin T.fl THEN
             (IF \A i \in 1..Len(ls) : BcdOk(ls[i]) THEN LeVal([i \in 1..Len(ls) |-> BcdVal(ls[i])], 100) ELSE -1)
        ELSE LeVal(ls, IF "HCD" \in T.fl THEN 100 ELSE 256)
-(* mode: "name" | "num" | "valname" *)
-ListExpect(T, nbits, vl, bytes, mode) ==
+ListExpect(T, nbits, vl, bytes) ==
   LET base == IF T.k = "bits" THEN BitsExpect(T, nbits, bytes) ELSE NumExpect(T, 1, bytes)
       v == RawOf(T, nbits, bytes)
       names == VlLookup(vl, v)
@@ -372,11 +370,10 @@ DayExpect(bytes) ==
   IN IF n = 65535 THEN NullOrVal({NullDate, txt}) ELSE Val({txt})
 
 TimeHM(h, m) == DecW(h, 2) \o <<COLON>> \o DecW(m, 2)
-DTM_MAX_TOP == 2     \* documented maximum 02 da 4e 1f
 DtmExpect(bytes) ==
   LET hi == bytes[4]
       n == bytes[1] + 256 * bytes[2] + 65536 * bytes[3] + 16777216 * (hi % 4)
-  IN IF hi > 2 \/ n > 47861279 THEN Open
+  IN IF hi > 2 \/ n > 47861279 THEN Open          \* above the documented maximum 02 da 4e 1f (= 47861279): left open
      ELSE LET c == CivilFromDays(39812 + (n \div 1440))
               t == n % 1440
           IN Val({DateText(c.d, c.m, c.y) \o <<BLANK>> \o TimeHM(t \div 60, t % 60)})
@@ -454,7 +451,7 @@ NBits(r) == IF r.l = 0 THEN 1 ELSE r.l
 (* what the definition demands for the plain text format *)
 Expect(r) ==
   LET T == Types[r.t] IN
-  CASE HasList(r) -> ListRelax(ListExpect(T, NBits(r), ListOf(r), r.b, "name"), T, NBits(r), r.b)
+  CASE HasList(r) -> ListRelax(ListExpect(T, NBits(r), ListOf(r), r.b), T, NBits(r), r.b)
     [] T.k = "num" -> IF T.wide THEN WideExpect(T, EffDiv(1, r.d), r.b) ELSE NumExpect(T, EffDiv(T.div, r.d), r.b)
     [] T.k = "bits" -> BitsExpect(T, NBits(r), r.b)
     [] T.k = "date" -> DateExpect(T, r.b)
